@@ -495,4 +495,39 @@ example :
      | _, _ => false) = true := by
   decide +kernel
 
+/-- what an argument node of an inverse field computes in the decorated graph, given what the nodes of `pipeline >> f` compute: a backward input of
+the layer computes what `f` returned under its name; any other node that is not downstream of the backward pass (a private parameter of the layer,
+computed in the forward pass) computes what it computed there -/
+inductive InvArg (state r : Bag) (es : List BEdge) (bi : List BNode) (inhf : NameSet) : BNode → BTerm → Prop
+  | back {n o t} : n ∈ bi → n ∉ state.inputs → o ∈ state.outputs → o.name = n.name → inhf.mem n.name = true →
+      ¬ Down r.edges (es.map (·.out)) o → BDen state o t → InvArg state r es bi inhf n t
+  | fwd {n t} : ¬ Down r.edges (es.map (·.out)) n → BDen state n t → InvArg state r es bi inhf n t
+
+/-- **Node level: one decorated layer, every shape of inverse.**  `layer._decorate(...)(f)`: an inverse field of the layer - the edge `e` over
+backward inputs and the layer's own private parameters, in any number and order - is an output of the decorated graph and computes its function
+over: what `f` returned under the names of its backward inputs, and its private parameters AS COMPUTED IN THE FORWARD PASS (`InvArg`).  Forward
+through the layer, then `f`, then the inverse, the inverse seeing the parameters of its own layer - for every well-formed pipeline and `f`. -/
+theorem node_decorated_inverse (b fb r : Bag) (h : b.loopbackWith fb = .ok r) :
+    ∃ state es, connectBags b fb = .ok state ∧ r.edges = state.edges ++ es ∧
+      ∀ (bi bo : List BNode) (inh inhf : NameSet) (e : BEdge) (ts : List BTerm),
+        state.ctx = .chain (.bag bi bo inh) (.bag [] [] inhf) → (names state.outputs).Nodup → (∀ m ∈ state.inputs, m.id < state.next) →
+        e ∈ state.edges → e.edge ≠ .identity → e.out ∈ bo → e.out ∉ state.inputs → e.ins.length = ts.length →
+        (∀ q ∈ e.ins.zip ts, InvArg state r es bi inhf q.1 q.2) →
+        r.Field e.out.name (.node e.edge ts) := by
+  obtain ⟨state, es, hst, he, hin, hinput⟩ := node_decorated_layer_input_fresh b fb r h
+  obtain ⟨state2, es2, hst2, he2, hfield⟩ := node_decorated_field b fb r h
+  obtain ⟨state3, hst3, houts⟩ := node_decorated_outputs b fb r h
+  have e2 : state2 = state := by rw [hst] at hst2; injection hst2 with h'; exact h'.symm
+  have e3 : state3 = state := by rw [hst] at hst3; injection hst3 with h'; exact h'.symm
+  subst e2; subst e3
+  refine ⟨state3, es, hst, he, ?_⟩
+  intro bi bo inh inhf e ts hctx hnd hlt hmem hk hout hoi hlen hargs
+  refine hfield e ts hmem hk (houts bi bo inh _ hctx e.out hout) (by rw [hin]; exact hoi) hlen ?_
+  intro q hq
+  cases hargs q hq with
+  | back hn hni ho hname hinh hd hden =>
+    exact (hinput bi bo inh inhf _ _ hctx hnd hn ho hname hinh hlt (by rw [hin]; exact hni) hd _).2 hden
+  | fwd hd hden =>
+    exact (den_extension hin he hd _).2 hden
+
 end CM.C10
